@@ -526,6 +526,7 @@ package parse
 //@   ensures result != nil
 //@   ghost ops int = 0
 //@   at call parse.newBinaryOpNode#0 after set ops = ops + 1
+//@   at call (*tree).parseExpr#0 assert[the-right-operand-of-?:-is-a-whole-expression,-of-any-other-operator-a-tighter-one;C01] (tok.typ == itemElvis ==> arg1 == 0) && (tok.typ != itemElvis ==> arg1 > prec)
 //@   loop 0
 //@     invariant stepOK0(t) && n != nil && depth == old(t.depth)
 //@     invariant[every-operator-of-a-chain-counts-as-a-level;C05,C06] ops >= 0 && t.depth == old(t.depth) + 1 + ops
